@@ -61,11 +61,62 @@ def real_embed(lines, variant):
     return src, out, val
 
 
+# the line lists of the Examples / former refutation witnesses of Properties/C02.v: replayed first, on the real code
+CORPUS_LINES = [
+    ["query A {", '  echo(s: "it\'s")', "}"],                       # C02_regression_quote
+    ["query A {", '  echo(s: "a\\nb")', "}"],                      # C02_regression_escape
+    ["query A {", '  echo(s: """b""")', "}"],                        # C02_regression_block
+    ["query A {", '  echo(s: """', "  a", "     ", "  b", '  """)', "}"],   # C02_regression_blank_line_of_block_string
+    ["", "\"'=", "", ""],                                            # C02_two_matches_still_round_trip
+    ["query A($v: Int = 3) {", '  echo(s: "a \\n # b = c\\\\ """)', "", "}"],   # C02_embed_hypotheses_satisfiable
+    ["single line"],                                                  # no rewrite at all
+]
+
+
+def source_constants(run):
+    """model data that is literal in Model/*.v, re-derived from /repo's source on every run (fail closed)"""
+    import inspect
+    import re as _re
+
+    from ariadne_codegen import utils
+    from ariadne_codegen.client_generators import client as cg
+    from ariadne_codegen.client_generators import constants as K
+    from ariadne_codegen.contrib import extract_operations as xo
+
+    want = {
+        "MIXIN_NAME": ("mixin", K.MIXIN_NAME), "TYPENAME_FIELD_NAME": ("__typename", K.TYPENAME_FIELD_NAME),
+        "SKIP_DIRECTIVE_NAME": ("skip", K.SKIP_DIRECTIVE_NAME), "INCLUDE_DIRECTIVE_NAME": ("include", K.INCLUDE_DIRECTIVE_NAME),
+    }
+    for k, (model_value, repo_value) in want.items():
+        if model_value != repo_value:
+            run.broken("source constants", f"{k}: model {model_value!r}, /repo {repo_value!r}")
+    src = inspect.getsource(utils.format_multiline_strings)
+    m = _re.search(r're\.finditer\(r"([^"]*)"', src)
+    if not m or m.group(1) != ".*?=.*?('.*?'\\s*){2,}":
+        run.broken("source constants", f"format_multiline_strings regex is {m.group(1) if m else None!r}: Model/Multiline.v find_match models "
+                                       ".*?=.*?('.*?'\\s*){2,}")
+    m = _re.search(r're\.search\(("[^\n]*"), line\)', src)
+    if not m or eval(m.group(1)) != "['\"].*['\"]":  # noqa: S307 (a string literal of /repo's source)
+        run.broken("source constants", f"span regex is {m.group(1) if m else None}: Model/Multiline.v quoted_span models ['\"].*['\"]")
+    sig = inspect.signature(utils.ast_to_str).parameters["multiline_strings_offset"].default
+    if sig != 4:
+        run.broken("source constants", f"multiline_strings_offset default {sig}, model 4")
+    if "offset=0" not in inspect.getsource(xo.ExtractOperationsPlugin._module_to_str):
+        run.broken("source constants", "ExtractOperations no longer formats with offset=0")
+    g = cg.ClientGenerator.__init__
+    srcg = inspect.getsource(g)
+    for needle in ('self._operation_str_variable = "query"', 'self._gql_func_name = "gql"'):
+        if needle not in srcg:
+            run.broken("source constants", f"client generator: {needle!r} not found (model prefix is 8 blanks + 'query = gql(')")
+    run.dist("source_constants", "checked", 9)
+
+
 def k1_multiline(ctx):
     run = ctx.run
+    source_constants(run)
     n = 60000 if ctx.thorough else 12000
     rng = random.Random(ctx.seed * 7919 + 11)
-    cases = []
+    cases = [(ls, v, False) for ls in CORPUS_LINES for v in ("client", "ops")]
     for i in range(n):
         safe = i % 3 == 0
         lines = G.rand_lines(rng, safe)
@@ -113,6 +164,9 @@ def k1_multiline(ctx):
             run.dist("k1_text_matches", {"0": "no-match", "1": "one-match"}.get(m_matches, "several-matches"))
             if kind != "clean":
                 problems.append(f"model does not predict a clean statement ({kind})")
+            # C02_embed_roundtrip on the model's own output: rewritten iff the regex matches, whatever the count
+            if kind == "clean" and not text_roundtrip_ok(("ok", m_ev[1]), lines, k):
+                problems.append("model value is not the text (contradicts C02_embed_roundtrip)")
             if problems:
                 bad += 1
                 if bad <= 5:
